@@ -125,6 +125,33 @@ def cow_shapes():
         if k not in cow: raise TranslateError('lib/yaml', 0, 'classmethod for ' + k)
     return cow
 
+def normalise_helper_body(body):
+    """equivalent spellings of the yaml.add_* helpers brought to the shape the extractor reads:
+    (a) `if Loader is not None: B...; return` followed by A...   ==   `if Loader is None: A... else: B...`
+    (b) `name = <attribute expression>` immediately followed by a call `name(...)`   ==   the call on the expression itself"""
+    body = list(body)
+    # (b) inline a local alias of a bound method used once, right after its definition
+    out = []; i = 0
+    while i < len(body):
+        st = body[i]
+        if (i + 1 < len(body) and isinstance(st, ast.Assign) and len(st.targets) == 1 and isinstance(st.targets[0], ast.Name) and isinstance(st.value, ast.Attribute)
+                and isinstance(body[i + 1], ast.Expr) and isinstance(body[i + 1].value, ast.Call) and isinstance(body[i + 1].value.func, ast.Name)
+                and body[i + 1].value.func.id == st.targets[0].id
+                and sum(1 for n in ast.walk(ast.Module(body=body[i + 1:], type_ignores=[])) if isinstance(n, ast.Name) and n.id == st.targets[0].id) == 1):
+            call = body[i + 1].value
+            out.append(ast.Expr(value=ast.Call(func=st.value, args=call.args, keywords=call.keywords))); ast.copy_location(out[-1], body[i + 1]); i += 2; continue
+        out.append(st); i += 1
+    body = out
+    # (a) early return for the explicit-Loader case
+    if body and isinstance(body[0], ast.If) and ast.unparse(body[0].test) == 'Loader is not None' and not body[0].orelse \
+            and body[0].body and isinstance(body[0].body[-1], ast.Return) and body[0].body[-1].value is None:
+        rest = body[1:]
+        k = 0
+        while k < len(rest) and isinstance(rest[k], ast.Expr) and isinstance(rest[k].value, ast.Call) and ast.unparse(rest[k].value.func).startswith('loader.'): k += 1
+        new_if = ast.If(test=ast.parse('Loader is None', mode='eval').body, body=rest[:k], orelse=body[0].body[:-1]); ast.copy_location(new_if, body[0])
+        if k > 0: body = [new_if] + rest[k:]
+    return body
+
 def helpers():
     """fan-out of yaml.add_* (Loader=None) and of YAMLObjectMetaclass."""
     tree, _ = parse('__init__'); file = '__init__.py'
@@ -133,7 +160,7 @@ def helpers():
         if isinstance(node, ast.FunctionDef) and node.name in KIND:
             args = [a.arg for a in node.args.args]
             defaults = dict(zip(args[len(args) - len(node.args.defaults):], [ast.unparse(d) for d in node.args.defaults]))
-            body = [s for s in node.body if not (isinstance(s, ast.Expr) and isinstance(s.value, ast.Constant))]
+            body = normalise_helper_body([s for s in node.body if not (isinstance(s, ast.Expr) and isinstance(s.value, ast.Constant))])
             loaders = None; dumper = None
             for s in body:
                 if isinstance(s, ast.If) and ast.unparse(s.test) == 'Loader is None':
@@ -169,10 +196,15 @@ def helpers():
             yd = ast.unparse(s.value)
     if yl is None or yd is None: raise TranslateError(file, yo.lineno, 'YAMLObject.yaml_loader / yaml_dumper')
     mc = find_class(tree, 'YAMLObjectMetaclass', file); init = find_method(mc, '__init__', file)
+    # YAMLObjectMetaclass.__init__ registers from_yaml on every class of yaml_loader (a list, or a single class) and to_yaml on yaml_dumper,
+    # for classes whose own yaml_tag is not None - recognised by what is called, not by how the branches are laid out
     src = ast.unparse(init)
-    for needle in ("if 'yaml_tag' in kwds and kwds['yaml_tag'] is not None", 'loader.add_constructor(cls.yaml_tag, cls.from_yaml)',
-                   'cls.yaml_loader.add_constructor(cls.yaml_tag, cls.from_yaml)', 'cls.yaml_dumper.add_representer(cls, cls.to_yaml)'):
-        if needle not in src: raise TranslateError(file, init.lineno, needle, 'YAMLObjectMetaclass.__init__ changed')
+    calls = [c for c in ast.walk(init) if isinstance(c, ast.Call) and isinstance(c.func, ast.Attribute)]
+    ctor = [c for c in calls if c.func.attr == 'add_constructor' and [ast.unparse(a) for a in c.args] == ['cls.yaml_tag', 'cls.from_yaml'] and not c.keywords]
+    repr_ = [c for c in calls if ast.unparse(c.func) == 'cls.yaml_dumper.add_representer' and [ast.unparse(a) for a in c.args] == ['cls', 'cls.to_yaml'] and not c.keywords]
+    others = [c for c in calls if c.func.attr in KIND and c not in ctor and c not in repr_]
+    if not ctor or len(repr_) != 1 or others or 'cls.yaml_loader' not in src or "'yaml_tag'" not in src or 'kwds' not in src or ' None' not in src:
+        raise TranslateError(file, init.lineno, "registration of cls.from_yaml on cls.yaml_loader and of cls.to_yaml on cls.yaml_dumper, guarded by kwds['yaml_tag']", 'YAMLObjectMetaclass.__init__ changed')
     return out, yl, yd
 
 def generate():
